@@ -11,6 +11,7 @@ import (
 	"math/rand"
 	"os"
 	"os/exec"
+	"runtime"
 	"sort"
 	"strconv"
 	"strings"
@@ -338,7 +339,19 @@ func c05Child(args []string) {
 		fmt.Fprintf(w, "START %d\n", i)
 		w.Flush()
 		t0 := time.Now()
+		var m0, m1 runtime.MemStats
+		runtime.ReadMemStats(&m0)
 		p := exerciseAll(data)
+		runtime.ReadMemStats(&m1)
+		if pth := os.Getenv("VERIF_C05_ALLOC"); pth != "" {
+			if af, err := os.OpenFile(pth, os.O_APPEND|os.O_CREATE|os.O_WRONLY, 0o644); err == nil {
+				fmt.Fprintf(af, "%d %d %d\n", len(data), declaredArea(data), m1.TotalAlloc-m0.TotalAlloc)
+				af.Close()
+			}
+		}
+		if over := m1.TotalAlloc - m0.TotalAlloc; p == "" && over > allocBudget(data) {
+			p = fmt.Sprintf("memory: the entry points allocated %d bytes for this input; budget 32 MiB + 1 KiB per input byte + 256 bytes per declared pixel = %d", over, allocBudget(data))
+		}
 		fmt.Fprintf(w, "DONE %d %d %s\n", i, time.Since(t0).Milliseconds(), strings.ReplaceAll(p, "\n", " | "))
 		w.Flush()
 	}
@@ -353,7 +366,7 @@ type c05Input struct {
 }
 
 // runIsolated exercises the inputs in child processes with a per-case deadline; it reports panics, hangs and crashes.
-func runIsolated(run *vx.Run, inputs []c05Input) {
+func runIsolated(run *vx.Run, inputs []c05Input, procs int, covKey string) {
 	const shards = 5
 	var wg sync.WaitGroup
 	var mu sync.Mutex
@@ -366,7 +379,7 @@ func runIsolated(run *vx.Run, inputs []c05Input) {
 		wg.Add(1)
 		go func(part []c05Input) {
 			defer wg.Done()
-			ms, d := runShard(run, part)
+			ms, d := runShard(run, part, procs)
 			mu.Lock()
 			if ms > slowest {
 				slowest, slowDesc = ms, d
@@ -375,11 +388,11 @@ func runIsolated(run *vx.Run, inputs []c05Input) {
 		}(part)
 	}
 	wg.Wait()
-	run.Cov["slowest_case_ms"] = slowest
-	run.Cov["slowest_case"] = slowDesc
+	run.Cov["slowest_case_ms"+covKey] = slowest
+	run.Cov["slowest_case"+covKey] = slowDesc
 }
 
-func runShard(run *vx.Run, inputs []c05Input) (int64, string) {
+func runShard(run *vx.Run, inputs []c05Input, procs int) (int64, string) {
 	dir, err := os.MkdirTemp("", "vx-c05-")
 	if err != nil {
 		vx.Fatal2("%v", err)
@@ -404,7 +417,7 @@ func runShard(run *vx.Run, inputs []c05Input) (int64, string) {
 	next := 0
 	for next < len(inputs) {
 		cmd := exec.Command(os.Args[0], "C05-child", path, strconv.Itoa(next))
-		cmd.Env = append(os.Environ(), "GOMAXPROCS=4")
+		cmd.Env = append(os.Environ(), fmt.Sprintf("GOMAXPROCS=%d", procs))
 		stdout, _ := cmd.StdoutPipe()
 		var stderr bytes.Buffer
 		cmd.Stderr = &stderr
@@ -422,6 +435,8 @@ func runShard(run *vx.Run, inputs []c05Input) (int64, string) {
 		}()
 		cur := -1
 		ended := false
+		var cpuAtStart time.Duration
+		var pending []string // lines read by waitSlowCase, handled here
 	loop:
 		for {
 			var timeout <-chan time.Time
@@ -430,14 +445,26 @@ func runShard(run *vx.Run, inputs []c05Input) (int64, string) {
 			} else {
 				timeout = time.After(60 * time.Second)
 			}
-			select {
-			case ln, ok := <-lines:
+			var ln string
+			ok := true
+			if len(pending) > 0 {
+				ln, pending = pending[0], pending[1:]
+			} else {
+				select {
+				case ln, ok = <-lines:
+				case <-timeout:
+					ln, ok = "\x00timeout", true
+				}
+			}
+			switch {
+			case ln != "\x00timeout":
 				if !ok {
 					break loop
 				}
 				switch {
 				case strings.HasPrefix(ln, "START "):
 					cur, _ = strconv.Atoi(ln[6:])
+					cpuAtStart = procCPU(cmd.Process.Pid)
 				case strings.HasPrefix(ln, "DONE "):
 					parts := strings.SplitN(ln, " ", 4)
 					i, _ := strconv.Atoi(parts[1])
@@ -454,14 +481,32 @@ func runShard(run *vx.Run, inputs []c05Input) (int64, string) {
 				case ln == "END":
 					ended = true
 				}
-			case <-timeout:
-				cmd.Process.Kill()
-				if cur >= 0 {
-					run.Violate("hang-or-over-budget|"+inputs[cur].sig, fmt.Sprintf("%s: no result within %v (input %d bytes, declared area %d)", inputs[cur].desc, budget(cur), len(inputs[cur].data), declaredArea(inputs[cur].data)), map[string]any{"desc": inputs[cur].desc, "bytes": inputs[cur].data})
-					next = cur + 1
-				} else {
+			default:
+				if cur < 0 {
+					cmd.Process.Kill()
 					vx.Fatal2("C05 child silent")
 				}
+				// The wall-clock budget has passed. Wall time depends on what else the machine is doing, so the verdict
+				// is taken from the child's CPU time and from whether it still makes progress:
+				//   CPU time of this case above 4 x budget (the child runs with GOMAXPROCS=4)  -> over budget
+				//   no CPU progress for 15 s while the case is unfinished                      -> blocked for ever (deadlock)
+				//   otherwise the case is merely slow because the machine is busy: keep waiting (the case still has
+				//   to finish within its CPU budget); an absolute wall cap turns into an infrastructure error.
+				verdict, cpu := waitSlowCase(cmd.Process.Pid, cpuAtStart, budget(cur), procs, lines, &pending)
+				switch verdict {
+				case "finished":
+					continue loop
+				case "cpu":
+					cmd.Process.Kill()
+					run.Violate("hang-or-over-budget|"+inputs[cur].sig, fmt.Sprintf("%s: no result after %v of CPU time, budget %v (times the number of threads of the child, at least 4; input %d bytes, declared area %d)", inputs[cur].desc, cpu, budget(cur), len(inputs[cur].data), declaredArea(inputs[cur].data)), map[string]any{"desc": inputs[cur].desc, "bytes": inputs[cur].data})
+				case "blocked":
+					cmd.Process.Kill()
+					run.Violate("hang-or-over-budget|"+inputs[cur].sig, fmt.Sprintf("%s: the call is blocked for ever (no result within %v and no CPU time used for 15 s; input %d bytes, declared area %d)", inputs[cur].desc, budget(cur), len(inputs[cur].data), declaredArea(inputs[cur].data)), map[string]any{"desc": inputs[cur].desc, "bytes": inputs[cur].data})
+				default:
+					cmd.Process.Kill()
+					vx.Fatal2("C05: %s still running after the absolute wall cap but within its CPU budget (machine overloaded?)", inputs[cur].desc)
+				}
+				next = cur + 1
 				break loop
 			}
 		}
@@ -486,7 +531,76 @@ func runShard(run *vx.Run, inputs []c05Input) (int64, string) {
 	return slowest, slowDesc
 }
 
+// procCPU returns the CPU time (user + system, all threads) a process has used so far, from /proc/<pid>/stat.
+func procCPU(pid int) time.Duration {
+	b, err := os.ReadFile(fmt.Sprintf("/proc/%d/stat", pid))
+	if err != nil {
+		return 0
+	}
+	// the command name (field 2) may contain spaces: fields are counted after the closing parenthesis
+	i := bytes.LastIndexByte(b, ')')
+	if i < 0 {
+		return 0
+	}
+	f := strings.Fields(string(b[i+1:]))
+	if len(f) < 13 {
+		return 0
+	}
+	ut, _ := strconv.ParseInt(f[11], 10, 64) // utime  (field 14)
+	st, _ := strconv.ParseInt(f[12], 10, 64) // stime  (field 15)
+	return time.Duration(ut+st) * (time.Second / 100)
+}
+
+// waitSlowCase decides about a case whose wall-clock budget has passed (see the caller). It returns "finished" when a
+// line arrived from the child (stored in *pending for the caller), "cpu", "blocked" or "cap".
+func waitSlowCase(pid int, cpuAtStart, budget time.Duration, procs int, lines chan string, pending *[]string) (string, time.Duration) {
+	if procs < 4 {
+		procs = 4
+	}
+	capAt := time.Now().Add(20*budget + 10*time.Minute)
+	last := procCPU(pid)
+	idle := 0
+	for {
+		select {
+		case ln, ok := <-lines:
+			if !ok {
+				return "finished", 0 // the child died: the caller's crash handling takes over
+			}
+			*pending = append(*pending, ln)
+			return "finished", 0
+		case <-time.After(5 * time.Second):
+		}
+		now := procCPU(pid)
+		used := now - cpuAtStart
+		if used > time.Duration(procs)*budget {
+			return "cpu", used
+		}
+		if now-last < 20*time.Millisecond {
+			idle++
+			if idle >= 3 {
+				return "blocked", used
+			}
+		} else {
+			idle = 0
+		}
+		last = now
+		if time.Now().After(capAt) {
+			return "cap", used
+		}
+	}
+}
+
+// allocBudget is the memory the entry points together may allocate for one input: proportional to the input length
+// plus the declared area (measured on the unchanged tree: at most 40 bytes per declared pixel and 2.5 MB for small
+// declared areas, i.e. below a sixth of this budget for every input of the quick and thorough tiers).
+func allocBudget(data []byte) uint64 {
+	return 32<<20 + 1024*uint64(len(data)) + 256*declaredArea(data)
+}
+
 func problemClass(p string) string {
+	if strings.HasPrefix(p, "memory:") {
+		return "memory-over-budget"
+	}
 	if strings.HasPrefix(p, "panic:") {
 		// class by the first words of the panic message
 		w := strings.Fields(p)
@@ -531,11 +645,54 @@ func c05BaseFiles(rng *rand.Rand) map[string][]byte {
 	return files
 }
 
+type namedFile struct {
+	name string
+	data []byte
+}
+
+// c05ShapeFiles are valid files of the package's own encoder for pictures that are very wide or very tall.
+func c05ShapeFiles(rng *rand.Rand, thorough bool) []namedFile {
+	photo := func(w, h int, alpha bool) *image.NRGBA {
+		p := image.NewNRGBA(image.Rect(0, 0, w, h))
+		for y := 0; y < h; y++ {
+			for x := 0; x < w; x++ {
+				i := p.PixOffset(x, y)
+				p.Pix[i] = uint8((x*3 + rng.Intn(9)) & 255)
+				p.Pix[i+1] = uint8((x + y*29 + rng.Intn(9)) & 255)
+				p.Pix[i+2] = uint8((x/3 + y*7 + rng.Intn(17)) & 255)
+				p.Pix[i+3] = 255
+				if alpha && (x/50)%2 == 0 {
+					p.Pix[i+3] = uint8(x & 255)
+				}
+			}
+		}
+		return p
+	}
+	type shape struct {
+		w, h     int
+		lossless bool
+		alpha    bool
+		method   int
+	}
+	shapes := []shape{{16383, 7, true, false, 4}, {13000, 8, true, false, 2}, {7, 16383, true, false, 4}, {16383, 1, true, true, 3}, {1, 16383, true, false, 0},
+		{16383, 9, false, false, 4}, {9, 16383, false, false, 2}, {8192, 13, false, true, 4}, {16383, 1, false, false, 4}, {1, 9000, false, true, 3}}
+	if thorough {
+		shapes = append(shapes, shape{16383, 16, true, true, 6}, shape{16, 16383, true, false, 5}, shape{16383, 33, false, true, 6}, shape{33, 16383, false, false, 5}, shape{12000, 10, true, false, 0})
+	}
+	var out []namedFile
+	for _, s := range shapes {
+		o := *webp.DefaultOptions()
+		o.Lossless, o.Method = s.lossless, s.method
+		out = append(out, namedFile{fmt.Sprintf("%dx%d lossless=%v alpha=%v method %d", s.w, s.h, s.lossless, s.alpha, s.method), mustEncode(photo(s.w, s.h, s.alpha), &o)})
+	}
+	return out
+}
+
 func checkC05(args []string) {
 	run := vx.NewRun("C05", "fault_enumeration", args)
 	activeRun = run
 	run.Rule = "base files (lossy with partitions, lossy+alpha+metadata, lossless, lossless palette+XMP, lossless and mixed-codec animations) are mapped to their fields by the layout map of spec/Riff.tla; TLC enumerates every single fault (field x value class, structural operation) over the field slots and, by simulation, seeded fault pairs (spec/Fault.tla); every proper prefix, seeded random byte strings and bit flips, and valid foreign streams from the VP8/VP8L structure generators (with single-bit mutations) are added; each resulting byte string goes to every entry point (Decode, DecodeConfig, GetFeatures, image.Decode, Demuxer + frames/chunks/iterator, animation.DecodeBytes + DecodeFrames + DecodeFramesParallel + AnimDecoder playback) in a child process with an address-space cap and a per-case deadline proportional to input length plus declared area. Violations: panic, process death, deadline miss, malformed result. distinct = distinct (base file, fault class) pairs"
-	run.Assumptions = []string{"time budget: 3 s + 20 us per input byte + 0.4 us per declared pixel (capped at the documented 2^30-pixel limit); address space cap 20 GB per child, 5 children in parallel", "memory safety is observed (panic / crash), not proved"}
+	run.Assumptions = []string{"time budget: 3 s + 20 us per input byte + 0.4 us per declared pixel (capped at the documented 2^30-pixel limit), taken on the child's CPU time once the wall-clock budget has passed (x number of threads), a call that uses no CPU for 15 s is blocked; memory budget per input 32 MiB + 1 KiB per byte + 256 bytes per declared pixel of cumulative allocation (runtime.MemStats.TotalAlloc) plus an address space cap of 20 GB per child; 5 children in parallel", "memory safety is observed (panic / crash), not proved"}
 	rng := rand.New(rand.NewSource(run.Seed))
 	bases := c05BaseFiles(rng)
 	lay := specLayouts(run, bases)
@@ -664,10 +821,108 @@ func checkC05(args []string) {
 		m[20+rng.Intn(len(m)-20)] ^= 1 << uint(rng.Intn(8))
 		add(m, desc+" with one bit flipped", "generated-mutated")
 	}
+	// bit-field faults inside the lossless bitstream: the TLA+ token writer (spec/Vp8lGen2.tla) lays out valid streams
+	// and "hostile" headers (large declared picture, no pixel data) together with the map of their bit fields; every
+	// field of every stream is overwritten with each value class
+	{
+		wr := vx.MustTLC(vx.TLCOpts{Module: "Vp8lGen2", Cfg: fmt.Sprintf("SPECIFICATION Spec\nCONSTANTS SEEDS = {%d}\nWIDTHS = {5, 8}\nH = 6\nINVARIANTS ReaderAccepts Emit EmitHostile\nCHECK_DEADLOCK FALSE\n", 1+run.Seed%89),
+			Workers: 4, Timeout: 30 * time.Minute, Heap: "4g"})
+		if wr.InvViolated != "" {
+			vx.Fatal2("Vp8lGen2: %s violated (specification bug)", wr.InvViolated)
+		}
+		run.AddTLC(wr)
+		type bitField struct {
+			Name  string `json:"name"`
+			Off   int    `json:"off"`
+			Width int    `json:"width"`
+		}
+		type wcase struct {
+			Name   string     `json:"name"`
+			Ts     []any      `json:"ts"`
+			W      int        `json:"w"`
+			Fields []bitField `json:"fields"`
+			Bytes  []int      `json:"bytes"`
+		}
+		nStreams, nFaults := 0, 0
+		seenHost := map[string]bool{}
+		for _, tag := range []string{"HOSTILE", "CASE"} {
+			for _, raw := range wr.Tagged(tag) {
+				var c wcase
+				if err := json.Unmarshal(raw, &c); err != nil {
+					vx.Fatal2("Vp8lGen2 %s: %v", tag, err)
+				}
+				name := c.Name
+				if tag == "CASE" {
+					name = fmt.Sprintf("TLA+ token stream %v w=%d", c.Ts, c.W)
+					if !run.Thorough() && nStreams >= 10 {
+						continue // the quick tier keeps the hostile bases and six valid streams
+					}
+				} else if seenHost[name] {
+					continue
+				}
+				seenHost[name] = true
+				nStreams++
+				base := make([]byte, len(c.Bytes))
+				for i, v := range c.Bytes {
+					base[i] = byte(v)
+				}
+				for _, f := range c.Fields {
+					for _, cls := range []string{"zeros", "ones", "top-bit", "flip-low", "flip-high"} {
+						d := append([]byte(nil), base...)
+						for k := 0; k < f.Width; k++ {
+							p := f.Off + k
+							if p/8 >= len(d) {
+								break
+							}
+							bit := d[p/8] >> uint(p%8) & 1
+							switch cls {
+							case "zeros":
+								bit = 0
+							case "ones":
+								bit = 1
+							case "top-bit":
+								bit = 0
+								if k == f.Width-1 {
+									bit = 1
+								}
+							case "flip-low":
+								if k == 0 {
+									bit ^= 1
+								}
+							case "flip-high":
+								if k == f.Width-1 {
+									bit ^= 1
+								}
+							}
+							d[p/8] = d[p/8]&^(1<<uint(p%8)) | bit<<uint(p%8)
+						}
+						add(wrapVP8L(d), fmt.Sprintf("%s: bit field %s (bits %d..%d) := %s", name, f.Name, f.Off, f.Off+f.Width-1, cls), "bitfield|"+f.Name+":"+cls)
+						nFaults++
+					}
+				}
+			}
+		}
+		if nStreams == 0 {
+			vx.Fatal2("Vp8lGen2 produced no stream for bit-field faults")
+		}
+		run.Cov["bitfield_fault_base_streams"] = nStreams
+		run.Cov["bitfield_faults"] = nFaults
+	}
 	run.Cov["inputs"] = len(inputs)
 	run.Cov["huge_canvas_inputs_left_to_the_thorough_tier"] = skippedHuge
 	run.Cov["fault_sequences_from_tlc"] = len(singles) + len(pairs)
-	runIsolated(run, inputs)
+	runIsolated(run, inputs, 4, "")
 	run.AddTraces(len(inputs))
+	// valid files of extreme shape (one to a few rows or columns, above the sizes at which the decoders go parallel),
+	// decoded with few and with many worker threads: every parallel section sees fewer items than workers
+	var shapes []c05Input
+	for _, sh := range c05ShapeFiles(rng, run.Thorough()) {
+		shapes = append(shapes, c05Input{sh.data, sh.name, "extreme-shape|" + sh.name})
+	}
+	for _, procs := range []int{1, 32} {
+		runIsolated(run, shapes, procs, fmt.Sprintf("_shapes_gomaxprocs%d", procs))
+	}
+	run.AddTraces(2 * len(shapes))
+	run.Cov["extreme_shape_files"] = len(shapes)
 	run.Finish()
 }
